@@ -137,6 +137,7 @@ struct Agg {
     twin_same: u64,
     twin_other: u64,
     twin_fresh: u64,
+    twin_fresh_prog: u64,
     skipped_order: u64,
     faults_planned: u64,
     ok: u64,
@@ -251,6 +252,7 @@ fn cmd_batch(args: &[String]) {
         agg.twin_same += st.twin_same_compared;
         agg.twin_other += st.twin_other_compared;
         agg.twin_fresh += st.twin_fresh_thread_compared;
+        agg.twin_fresh_prog += st.twin_fresh_program_compared;
         agg.skipped_order += st.skipped_order_sensitive;
         agg.faults_planned += st.faults_planned;
         agg.ok += st.outcomes_ok;
@@ -342,6 +344,7 @@ fn cmd_batch(args: &[String]) {
         "twin_same_order_compared": agg.twin_same,
         "twin_other_order_compared": agg.twin_other,
         "twin_on_fresh_thread_compared": agg.twin_fresh,
+        "freshly_compiled_program_compared": agg.twin_fresh_prog,
         "skipped_order_sensitive": agg.skipped_order,
         "faults_planned": agg.faults_planned,
         "outcomes_ok": agg.ok, "outcomes_err": agg.err, "outcomes_panic": agg.panic,
